@@ -3,6 +3,7 @@
 //! have no constant bit; every stream must parse under the Spec's nonce sequence 0,1,2,…
 use std::collections::HashSet;
 
+use crate::c02::timed;
 use crate::c04::random_uuid;
 use crate::craft::{Crafter, field};
 use crate::gen_ss::*;
@@ -56,6 +57,48 @@ pub fn nonce_generator_cases(s: &mut Session, tier: &str, rng: &mut Rng) {
     s.mark_nontrivial();
 }
 
+/// a udp session at the end of its packet-id space: ids stay distinct and the session ends (encode refuses)
+/// rather than reuse one — reached through the client crate's verification hook that sets the counter
+pub fn packet_id_exhaustion_cases(s: &mut Session, rng: &mut Rng) {
+    for cipher in CIPHERS {
+        if !is2022(cipher) {
+            continue;
+        }
+        s.begin_case(&format!("udp-id-exhaustion:{}", cipher));
+        let cfg = random_cfg(rng, cipher, false);
+        let (uc, us) = (s.fresh("uc"), s.fresh("us"));
+        s.run(&format!("ssu.client {} cipher={} password={}", uc, cipher, cfg.client_password));
+        s.run(&format!("ssu.server {} cipher={} password={} users=-", us, cipher, cfg.server_password));
+        let mut seen: Vec<(String, String)> = vec![];
+        let mut ended = false;
+        for i in 0..8 {
+            if i == 2 {
+                s.run(&format!("ssu.setid {} pid={}", uc, u64::MAX - 2));
+            }
+            let w = timed(s, &format!("ssu.cenc {} addr={} payload={}", uc, random_addr(rng), hex(&rng.bytes(6))));
+            if w == "err" {
+                ended = true;
+                continue;
+            }
+            if ended {
+                s.oracle_fail(&format!("udp-ids:{}:resumed", cipher), "a session that had exhausted its packet ids sent again");
+                break;
+            }
+            let r = timed(s, &format!("ssu.sdec {} {}", us, w));
+            let id = (field(&r, "csid").unwrap_or("?").to_owned(), field(&r, "pid").unwrap_or("?").to_owned());
+            if seen.contains(&id) {
+                s.oracle_fail(&format!("udp-ids:{}:reused", cipher), &format!("packet id {} of session {} was used for two datagrams", id.1, id.0));
+                break;
+            }
+            seen.push(id);
+        }
+        if !ended {
+            s.oracle_fail(&format!("udp-ids:{}:no-end", cipher), "the session did not end at the end of the packet-id space");
+        }
+        s.mark_nontrivial();
+    }
+}
+
 pub fn generate(s: &mut Session, tier: &str, rng: &mut Rng) {
     let Some(mut cr) = Crafter::new() else {
         s.begin_case("no-driver");
@@ -63,6 +106,7 @@ pub fn generate(s: &mut Session, tier: &str, rng: &mut Rng) {
         return;
     };
     nonce_generator_cases(s, tier, rng);
+    packet_id_exhaustion_cases(s, rng);
     let sessions = if tier == "thorough" { 2000 } else { 96 };
     for cipher in CIPHERS {
         s.begin_case(&format!("ss:{}", cipher));
